@@ -52,6 +52,7 @@ def buildBad (ps : List Pat) : List Nat := maskIdx 0 (ambMask ps)
 /-! ### `PlaneModel::check_meta_collisions` -/
 
 structure MetaAcc where
+  meshCollision : Bool := false
   nodeCollision : Bool := false
   laneCollision : Bool := false
   routes : List Nat := []
@@ -61,20 +62,24 @@ structure MetaAcc where
 def metaLoop (a : MetaAcc) (i : Nat) : List Pat → MetaAcc
   | [] => a
   | p :: rest =>
+    let withMesh := areAmbiguous metaMesh p
     let withNode := areAmbiguous metaNode p
     let withLane := areAmbiguous metaLane p
     metaLoop
-      { nodeCollision := a.nodeCollision || withNode
+      { meshCollision := a.meshCollision || withMesh
+        nodeCollision := a.nodeCollision || withNode
         laneCollision := a.laneCollision || withLane
-        routes := if withNode || withLane then a.routes ++ [i] else a.routes }
+        routes := if withMesh || withNode || withLane then a.routes ++ [i] else a.routes }
       (i + 1) rest
 
-/-- `none` = `Ok(())`; `some (meta, routes)` = `AmbiguousRoutes::MetaCollision` (meta: node? then lane?). -/
+/-- `none` = `Ok(())`; `some (meta, routes)` = `AmbiguousRoutes::MetaCollision` (meta: mesh? node? lane?; the mesh
+pattern is checked since `fix:` F12d). -/
 def checkMeta (ps : List Pat) : Option (List Bytes × List Nat) :=
   let a := metaLoop {} 0 ps
   if a.routes.isEmpty then none
   else
-    some ((if a.nodeCollision then [Generated.nodePatternText] else []) ++
+    some ((if a.meshCollision then [Generated.meshPatternText] else []) ++
+          (if a.nodeCollision then [Generated.nodePatternText] else []) ++
           (if a.laneCollision then [Generated.lanePatternText] else []), a.routes)
 
 /-- `ServerBuilder::build` as far as the routes are concerned. -/
